@@ -206,17 +206,9 @@ def rule_rcu_shape(fx, col):
     ii = [(bb, t) for bb, t in b.calls(include_cleanup=False) if U.callee_name(t) == 'into_inner' and t['dest']['local'] == 0]
     ok = len(ii) == 1 and b.origins(ii[0][1]['args'][0]) == {('call', cbb)}
     col.add('RCU-SHAPE', 'rcu|returns the replaced value', ok, 'the result is Guard::into_inner(prev), prev being what compare_and_swap returned')
-    # cur := prev on retry
-    cur_l = None
-    for o in fsrc:
-        pass
-    re_ok = False
-    for bb in blocks:
-        for st in b.stmts(bb):
-            if st['k'] == 'assign' and not st['dest']['proj'] and st['rv']['k'] == 'use':
-                if b.origins(st['rv']['op']) == {('call', cbb)} and ('call', cbb) in fsrc | b.origins(st['dest']['local']):
-                    re_ok = True
-    col.add('RCU-SHAPE', 'rcu|retries with the fresh value', re_ok, 'on interference cur is replaced by the value just returned (no stale retry)')
+    # cur := prev on retry: the guard handed to f can be the value the previous exchange returned
+    re_ok = ('call', cbb) in fsrc
+    col.add('RCU-SHAPE', 'rcu|retries with the fresh value', re_ok, 'on interference cur is replaced by the value just returned (the guard f sees derives from %s)' % sorted(fsrc))
     cls, why = P.classify_back_edge(O.ctx(fx), b, tails[0], h)
     col.add('RCU-SHAPE', 'rcu|retry only on interference', cls == 'L-INTERFERENCE', '%s: %s' % (cls, why))
 
